@@ -559,7 +559,7 @@ macro_rules! create_config {
                         Use `show_parse_errors` instead"
                     );
                     if !self.was_set().show_parse_errors() {
-                        self.show_parse_errors.2 = self.hide_parse_errors();
+                        self.show_parse_errors.2 = !self.hide_parse_errors();
                     }
                 }
             }
